@@ -90,6 +90,14 @@ def currentChannel (s : St) : Nat := if s.cfg.varMap then s.idx + 37 else s.idx
 def firstSelected (s : St) : Option Bool :=
   if s.cfg.varMap then (firstIdx s.map).map (fun f => s.idx == f) else some (s.idx == 37)
 
+/-- src: {variable,all}_advertising_channel_map::select_first_channel (fixes/adv-02): the variable map
+    does `if ( map_ ) current_channel_index_ = first_channel_index();`; `none`: shift count 32 in
+    first_channel_index (never taken behind the guard, see `selectFirst_spec`) -/
+def selectFirst (s : St) : Option St :=
+  if s.cfg.varMap then
+    if s.map ≠ 0 then (firstIdx s.map).map fun f => { s with idx := f } else some s
+  else some { s with idx := 37 }
+
 /-- src: add_channel_to_advertising_channel_map (channel already checked to be 37..39) -/
 def addChannel (s : St) (ch : Nat) : Option St :=
   let m := s.map ||| (1 <<< (ch - 37))
@@ -195,16 +203,32 @@ def validScanBase (pdu : List UInt8) (localAddr : Addr) : Bool :=
       && le ((pdu.drop 8).take 6) == localAddr / 2            -- AdvA == own address
       && (localAddr % 2 == 1) == ((h &&& 0x80) != 0)          -- RxAdd == own address type
 
-/-- src: bindings/nordic/nrf52/include/bluetoe/nrf52.hpp is_valid_scan_request — MODELLED ONLY (the
-    ISR is not built on the host): `response_data_.buffer` present, `resolving_address_invalid()`
-    false, `pdu_gap` 0.  The scanner address handed to the scan filter takes its type from the
-    advertiser's *own* TxAdd bit (`scanner_addres_is_random`), not from the request. -/
+/-- src: bluetoe/bindings/nordic/nrf52/include/bluetoe/nrf52.hpp nrf52_radio_base::is_valid_scan_request
+    (the same text is in nrf51/nrf51.cpp), with fixes/adv-03: the scanner address handed to the scan
+    filter takes its type from TxAdd of the *request* (before: from the advertiser's own TxAdd).
+    `pdu` is the content of the receive buffer (36 octets; the ISR does not look at the received size),
+    `resolving_address_invalid()` false, `pdu_gap` 0; the caller checks `response_data_.buffer`
+    (`hasScanResponse`).  The length octet is compared with all 8 bits. -/
 def nrfValidScan (pdu : List UInt8) (localAddr : Addr) (w : WL) : Bool :=
   let h := header pdu
   (h >>> 8) == 12 && (h &&& 0x0f) == 3
     && le ((pdu.drop 8).take 6) == localAddr / 2
     && (localAddr % 2 == 1) == ((h &&& 0x80) != 0)
-    && BluetoeModel.WhiteList.scanIn w (addrAt pdu 0 (localAddr % 2 == 1))
+    && BluetoeModel.WhiteList.scanIn w (addrAt pdu 0 ((h &&& 0x40) != 0))
+
+/-- src: <type>::impl::get_scan_response_data: the advertising types that hand a scan response to the
+    radio (`response_data_.buffer != nullptr` in the ISR) -/
+def hasScanResponse : AdvType → Bool
+  | .undirected => true
+  | .scannable => true
+  | .directed => false
+  | .nonconn => false
+
+/-- the nRF52 radio ISR answers the PDU in the receive buffer with the scan response -/
+def nrfAnswers (s : St) (pdu : List UInt8) : Bool :=
+  match s.cfg.types[s.selected]? with
+  | some t => hasScanResponse t && nrfValidScan pdu s.localAddr s.wl
+  | none => false
 
 /-- src: <type>::impl::is_valid_connect_request -/
 def validConnectT (s : St) (pdu : List UInt8) : AdvType → Bool
@@ -238,10 +262,12 @@ def startGate (s : St) : St × Bool :=
   let r := fillSel { s with selected := s.proposal }
   if r.2 then beginEvents r.1 else (r.1, false)
 
-/-- src: advertiser::handle_start_advertising (single and multiple type variant) -/
-def handleStart (s : St) : St × Option (Nat × Nat) :=
+/-- src: advertiser::handle_start_advertising (single and multiple type variant), with
+    fixes/adv-02: `select_first_channel()` in front of `schedule_advertisment( current_channel(), … )`;
+    outer `none`: undefined behaviour in first_channel_index -/
+def handleStart (s : St) : Option (St × Option (Nat × Nat)) :=
   let r := startGate s
-  if r.2 then (r.1, some (currentChannel r.1, 0)) else (r.1, none)
+  if r.2 then (selectFirst r.1).map fun s' => (s', some (currentChannel s', 0)) else some (r.1, none)
 
 /-- `this->next_channel()` followed by `this->next_adv_event()` as used by handle_adv_timeout;
     `none`: assertion failure / undefined behaviour (empty channel map) -/
@@ -277,20 +303,20 @@ def handleReceive (s : St) (pdu : List UInt8) : Option (St × Option Addr × Opt
   else (handleTimeout s).map fun (s', o) => (s', none, o)
 
 /-- src: connectable_directed_advertising::impl::directed_advertising_address -/
-def setDirected (s : St) (a : Addr) : St × Option (Nat × Nat) :=
+def setDirected (s : St) (a : Addr) : Option (St × Option (Nat × Nat)) :=
   let valid := a != nullAddr
   let start := !s.dValid && valid
   let go := start && s.dStarted
   let s := { s with dAddr := a, dValid := valid }
-  if go then handleStart s else (s, none)
+  if go then handleStart s else some (s, none)
 
 /-- src: no_auto_start_advertising::impl::start_advertising() / ( count ): `n = 0` is the
     variant without count -/
-def startAdv (s : St) (n : Nat) : St × Option (Nat × Nat) :=
+def startAdv (s : St) (n : Nat) : Option (St × Option (Nat × Nat)) :=
   let start := !s.enabled
   let go := start && s.started
   let s := { s with count := n, enabled := true }
-  if go then handleStart s else (s, none)
+  if go then handleStart s else some (s, none)
 
 /-- src: no_auto_start_advertising::impl::stop_advertising -/
 def stopAdv (s : St) : St := { s with enabled := false, count := 0 }
@@ -319,11 +345,14 @@ def step (s : St) : Op → St × Out
         match removeChannel s ch with | some s' => (s', .ok) | none => (s, .ub)
       else (s, .bad)
   | .interval ms => if s.cfg.varInterval then (setIntervalMs s ms, .ok) else (s, .bad)
-  | .start => if s.cfg.autoStart then (s, .bad) else let (s', o) := startAdv s 0; (s', .sched o)
+  | .start =>
+      if s.cfg.autoStart then (s, .bad)
+      else match startAdv s 0 with | some (s', o) => (s', .sched o) | none => (s, .ub)
   | .startn n =>
-      if s.cfg.autoStart ∨ n = 0 then (s, .bad) else let (s', o) := startAdv s n; (s', .sched o)
+      if s.cfg.autoStart ∨ n = 0 then (s, .bad)
+      else match startAdv s n with | some (s', o) => (s', .sched o) | none => (s, .ub)
   | .stop => if s.cfg.autoStart then (s, .bad) else (stopAdv s, .ok)
-  | .llstart => let (s', o) := handleStart s; (s', .sched o)
+  | .llstart => match handleStart s with | some (s', o) => (s', .sched o) | none => (s, .ub)
   | .llstop => (endEvents s, .ok)
   | .timeout => match handleTimeout s with | some (s', o) => (s', .sched o) | none => (s, .ub)
   | .dirty => ({ s with dirty := true }, .ok)
@@ -335,7 +364,9 @@ def step (s : St) : Op → St × Out
         | none => (s, .bad)
       else (s, .bad)
   | .direct a =>
-      if AdvType.directed ∈ s.cfg.types then let (s', o) := setDirected s a; (s', .sched o) else (s, .bad)
+      if AdvType.directed ∈ s.cfg.types then
+        match setDirected s a with | some (s', o) => (s', .sched o) | none => (s, .ub)
+      else (s, .bad)
   | .localAddr a => ({ s with localAddr := a }, .ok)
   | .filter b => ({ s with wl := { s.wl with connFilter := b } }, .ok)
   | .wladd a => let (w, r) := BluetoeModel.WhiteList.add s.wl a; ({ s with wl := w }, .bool r)
